@@ -67,9 +67,9 @@ type c19Sched struct {
 	// configuration
 	interesting map[string]bool
 	timedPoints map[string]bool
-	adopt       func(point string) string    // name for an unknown goroutine arriving at point ("" = let it pass)
+	adopt       func(point string) string      // name for an unknown goroutine arriving at point ("" = let it pass)
 	auxAt       func(point string) interface{} // evaluated by the arriving goroutine itself
-	watchStray  string                        // also wait for unmanaged goroutines running code of this package path
+	watchStray  string                         // also wait for unmanaged goroutines running code of this package path
 	stuck       bool
 }
 
